@@ -4,6 +4,7 @@ import JunoModel.C18.ModelBlockTx
 import JunoModel.C18.ModelSDL
 import JunoModel.C18.ModelHS
 import JunoModel.C18.ModelPipe
+import JunoModel.C18.ModelPruner
 /-! Line-protocol driver for the C18 models (`lake build c18drv`). See notes/C18.md for the
 request grammar. -/
 open Juno.Proto Juno.C18
@@ -351,6 +352,15 @@ def step (s : DrvState) (line : String) : DrvState × String :=
     | some conc, some n, some sent, some d, some ws, some dc =>
       (s, toString (Pipe.valid conc ⟨n, sent, d, ws, dc⟩))
     | _, _, _, _, _, _ => (s, "bad-op")
+  | ["pr.cutoff", z, b, height, l1, ret, pruned, pin] =>
+    -- z, b: Pruner.Cfg flags; pin: `x` or the cutoff restored from a resume state
+    match bool? z, bool? b, height.toNat?, l1.toNat?, ret.toNat?, pruned.toNat?, optNat? pin with
+    | some z, some b, some height, some l1, some ret, some pruned, some pin =>
+      let i : Pruner.In := ⟨height, l1, ret, pruned, pin⟩
+      (s, match Pruner.cutoff ⟨z, b⟩ i with
+          | none => "none"
+          | some c => s!"{c} {if Pruner.setupOk i c then "ok" else "fails"}")
+    | _, _, _, _, _, _, _ => (s, "bad-op")
   | ["bt.first"] =>
     match s.bt.height with
     | none => (s, "noheight")
